@@ -24,7 +24,10 @@ RULE = ('cases = (history, cache variant): random histories (8-14 operations) of
         'by 4 clients (owner, shared-key user, independent-key user of an encrypted repository, user of a second unencrypted repository on the '
         'Local backend); variants: disabled (reference), separate empty caches, separate warm caches, one cache directory shared by all keys and '
         'both repositories, and - before every command - every entry of the acting client\'s cache replaced by: nothing (removed), empty file, '
-        '1 byte, half, all but the last byte, the bytes of another entry/another snapshot, same-length garbage, or a random mix; stale entries '
+        '1 byte, half, all but the last byte, the bytes of another entry/another snapshot, same-length garbage, or a random mix; in every second history an '
+        'object whose contents do not hash to its name is planted under a well-formed snapshot location (and possibly removed again): all '
+        'clients must fail alike; plus the crowded-directory scenario: snapshots are created until two share a cache sub-directory, then every '
+        'command is run cache-less and with a cold cache and 4 loader threads whose cache writes into one directory are made to overlap; stale entries '
         'arise from the other clients\' snapshot/delete operations; non-trivial = the variant run actually read or repaired at least one cache '
         'entry that differs from the backend object (or, for plain variants, served at least one entry from the cache); distinct = distinct '
         '(history, variant)')
@@ -35,8 +38,11 @@ CODE = {'Ok': 0, 'Corrupted': 1, 'DecryptFail': 2, 'Missing': 3, 'Malformed': 4,
 
 
 # --------------------------------------------------------------------------- history generation
-def gen_history(rng, length):
-    """ops: dicts {op, client, ...}; labels of snapshots = index of the creating step"""
+def gen_history(rng, length, plant=False):
+    """ops: dicts {op, client, ...}; labels of snapshots = index of the creating step.
+    plant: somewhere in the second half an object whose contents do NOT hash to its name is written straight into the
+    backend under a well-formed snapshot location (upload-objects, a damaged mirror): from then on every client must fail
+    the same way, whatever its cache holds; it may be removed again (delete-objects) before the last observations."""
     h = []
     alive = {0: [], 1: []}      # repo -> [(label, client)]
     for i in range(length):
@@ -67,9 +73,24 @@ def gen_history(rng, length):
                     alive[repo].remove((l, client))
         else:
             h.append({'op': 'clean', 'client': client})
+    planted = None
+    if plant:
+        at = rng.randint(max(1, len(h) // 2), len(h))
+        pc = rng.choices([0, 1, 3], weights=[3, 1, 2])[0]
+        h.insert(at, {'op': 'plant', 'client': pc})
+        # labels are step indices: shift the labels of the operations that moved
+        for op in h[at + 1:]:
+            if op.get('target') is not None and op['target'] >= at:
+                op['target'] += 1
+            if 'labels' in op:
+                op['labels'] = [l + 1 if l >= at else l for l in op['labels']]
+        planted = (at, pc)
     # always end with observations by everybody
     for c in range(4):
         h.append({'op': 'list_snapshots', 'client': c})
+    if planted and rng.random() < 0.5:
+        h.append({'op': 'unplant', 'client': planted[1], 'label': planted[0]})
+        h.append({'op': 'list_snapshots', 'client': planted[1]})
     h.append({'op': 'restore', 'client': 0, 'target': None})
     return h
 
@@ -102,6 +123,9 @@ class World:
         self.be[1] = Local(str(self.dir / 'repo1'))
         self.labels = {}        # snapshot name -> label
         self.paths = {}         # label -> (repo, path, bytes)
+        self.creator = {}       # label -> client
+        self.planted = {}       # label -> label of the snapshot whose bytes were planted (or None)
+        self._readers = {}
         if variant == 'none':
             self.cache = {c: None for c in range(4)}
         elif variant == 'shared':
@@ -198,6 +222,53 @@ class World:
             out[l] = 0 if not f.is_file() else (1 if f.read_bytes() == data else 2)
         return out
 
+    # ---- objects written / removed behind replicat's back
+    def reader(self, c):
+        """(independent reader, key) of client c - only used to compute a well-formed location"""
+        from harness import refreader
+        if c not in self._readers:
+            repo = 1 if c == 3 else 0
+            rr = refreader.RefReader(self.base['objects1' if repo else 'objects0']['config'])
+            u = self.base['users'][c]
+            key = rr.open_key(u['key'].encode('latin1'), u['password'].encode('latin1')) if u['key'] else None
+            self._readers[c] = (rr, key)
+        return self._readers[c]
+
+    def write_object(self, repo, name, data):
+        if repo == 0:
+            self.be[0].objects[name] = data
+        else:
+            f = self.dir / 'repo1' / name
+            f.parent.mkdir(parents=True, exist_ok=True)
+            f.write_bytes(data)
+
+    def remove_object(self, repo, name):
+        if repo == 0:
+            self.be[0].objects.pop(name, None)
+        else:
+            (self.dir / 'repo1' / name).unlink(missing_ok=True)
+
+    def plant(self, i, c):
+        repo = 1 if c == 3 else 0
+        rr, key = self.reader(c)
+        objs = self.objects(repo)
+        live = [l for l, (r, p, d) in self.paths.items() if r == repo and p in objs and l not in self.planted]
+        mine = [l for l in live if self.creator.get(l) == c]
+        src = max(mine) if mine else (max(live) if live else None)
+        if src is not None:
+            data = objs[self.paths[src][1]]
+        elif repo == 1:
+            data = b'{"chunks":[],"data":{"utc_timestamp":"2024-05-01 11:00:00","files":[]}}'
+        else:
+            return None
+        fake = rr.hash(b'planted object %d' % i)
+        loc = rr.snapshot_path(key, fake)
+        self.write_object(repo, loc, data)
+        self.labels[fake.hex()] = i
+        self.paths[i] = (repo, loc, data)
+        self.planted[i] = src
+        return src
+
     # ---- one step
     def step(self, i, op):
         c = op['client']
@@ -208,10 +279,18 @@ class World:
         cl = self.client(c)
         kind = op['op']
         obs = {'op': kind, 'client': c}
-        if kind == 'snapshot':
+        planted_from = None
+        if kind in ('plant', 'unplant'):
+            if kind == 'plant':
+                planted_from = self.plant(i, c)
+            elif op['label'] in self.planted:
+                self.remove_object(repo, self.paths[op['label']][1])
+            o = repolab.Outcome('Ok')
+        elif kind == 'snapshot':
             o = cl.snapshot([self.base['trees'][op['tree']]], note=op['note'])
             if o.ok:
                 self.labels[o.value.name] = i
+                self.creator[i] = c
                 self.paths[i] = (repo, o.value.location, self.objects(repo)[o.value.location])
         elif kind == 'list_snapshots':
             o = cl.list_snapshots()
@@ -238,10 +317,15 @@ class World:
         obs['cls'] = o.cls
         obs['detail'] = o.detail[:160]
         obs['backend'] = self.canon_backend(repo)
+        # a delete that is refused for its own reasons while a damaged object is listed can end in either error,
+        # whichever loader finishes first: only "an error" is schedule independent then
+        objs_now = self.objects(repo)
+        obs['either_error'] = kind == 'delete' and any(self.paths[l][0] == repo and self.paths[l][1] in objs_now for l in self.planted)
         after = self.entry_states(c)
         # entries that were not the object before and are now (repaired), or were valid and present (served)
         self.read_or_repaired += sum(1 for l in after if after[l] == 1 and (before.get(l) != 1 or self.variant in ('sep', 'warm', 'shared')))
-        extra = {'events': events, 'cache_after': {str(k): v for k, v in after.items()}}
+        extra = {'events': events, 'cache_after': {str(k): v for k, v in after.items()}, 'planted_from': planted_from,
+                 'planted': kind == 'plant' and i in self.planted}
         return obs, extra
 
 
@@ -298,6 +382,157 @@ def worker_main():
     os._exit(0)
 
 
+# --------------------------------------------------------------------------- concurrent cache writers
+class Rendezvous:
+    """Schedule control for writers of the local cache: a thread that has just written a file into a cache
+    sub-directory in which a second object is still to be cached waits (bounded) until another thread has written
+    there too, so that concurrent cache writes into one directory overlap as much as they can."""
+
+    def __init__(self, cache_root, crowded_dirs):
+        import threading
+        from collections import defaultdict
+        self.root = str(cache_root)
+        self.crowded = {str(Path(cache_root, d)) for d in crowded_dirs}
+        self.cv = threading.Condition()
+        self.arrived = defaultdict(set)
+        self.ident = threading.get_ident
+
+    def after_write(self, path):
+        d = str(Path(path).parent)
+        if d not in self.crowded:
+            return
+        with self.cv:
+            self.arrived[d].add(self.ident())
+            self.cv.notify_all()
+            self.cv.wait_for(lambda: len(self.arrived[d]) >= 2, timeout=1.5)
+
+    def __enter__(self):
+        orig = Path.write_bytes
+        me = self
+
+        def write_bytes(self, data):
+            n = orig(self, data)
+            if str(self).startswith(me.root):
+                me.after_write(self)
+            return n
+        self._orig = orig
+        Path.write_bytes = write_bytes
+        return self
+
+    def __exit__(self, *exc):
+        Path.write_bytes = self._orig
+
+
+def crowd_main(inp):
+    """Many snapshots, so that some of them share a cache sub-directory (snapshots/<first tag byte>/); every command is
+    run by the cache-less client and by a client whose cache is cold, with 4 loader threads under the Rendezvous."""
+    import posixpath
+    import random
+    repolab.silence_backoff()
+    FakeDT, _dt = _install_clock()
+    rng = random.Random(inp['seed'])
+    wd = Path(inp['workdir'])
+    tree = wd / 'tree'
+    repolab.make_tree(rng, tree, 2, maxlen=200)
+    be = MemBackend()
+    encrypted = inp['kind'] == 'encrypted'
+    pw = b'crowd-pw' if encrypted else None
+    maker = repolab.Client(be, password=pw)
+    assert maker.init(repolab.settings_for(('aes_gcm', None) if encrypted else None, hashing={'name': 'blake2b', 'length': 32})).ok
+    t0 = _dt.datetime(2024, 5, 1, 12, 0, 0)
+    dirs, labels, n = {}, {}, 0
+    while n < inp['cap']:
+        FakeDT.current = t0 + _dt.timedelta(seconds=n)
+        o = maker.snapshot([tree], note=f'crowd-{n}')
+        assert o.ok, o.detail
+        labels[o.value.name] = n
+        dirs.setdefault(posixpath.dirname(o.value.location), []).append(o.value.location)
+        n += 1
+        if n >= inp['least'] and any(len(v) >= 2 for v in dirs.values()):
+            break
+    crowded = sorted(d for d, v in dirs.items() if len(v) >= 2)
+    base = dict(be.objects)
+    target = sorted(labels, key=labels.get)[-1]
+    commands = [('list_snapshots', None), ('restore', None), ('list_files', None), ('restore', target), ('delete', target), ('clean', None),
+                ('list_snapshots', None)]
+
+    def canon(text):
+        rows = []
+        for line in text.splitlines():
+            cells = [c.strip() for c in line.split('\t')]
+            rows.append([('S%s' % labels[c]) if c in labels else c for c in cells])
+        return rows
+
+    out = {'n': n, 'crowded': crowded}
+    for variant in ('none', 'cold'):
+        b = MemBackend(dict(base))
+        cache = wd / f'cache-{variant}'
+        steps = []
+        for i, (cmd, arg) in enumerate(commands):
+            FakeDT.current = t0 + _dt.timedelta(seconds=1000 + i)
+            if variant == 'cold':
+                shutil.rmtree(cache, ignore_errors=True)        # cold before every command
+            cl = repolab.Client(b, password=pw, key=maker.key, cache=cache if variant == 'cold' else None, concurrent=4)
+            obs = {'op': cmd}
+            with Rendezvous(cache, crowded):
+                if cmd == 'list_snapshots':
+                    o = cl.list_snapshots()
+                    obs['rows'] = canon(o.stdout)
+                elif cmd == 'list_files':
+                    o = cl.list_files()
+                    obs['rows'] = sorted(canon(o.stdout))
+                elif cmd == 'restore':
+                    dest = wd / f'out-{variant}-{i}'
+                    o = cl.restore(dest, snapshot_regex=arg)
+                    tr = repolab.read_tree(dest) if dest.is_dir() else {}
+                    obs['tree'] = {p_: hashlib.sha256(d).hexdigest() for p_, d in sorted(tr.items())} if o.ok else None
+                    shutil.rmtree(dest, ignore_errors=True)
+                elif cmd == 'delete':
+                    o = cl.delete_snapshots([arg])
+                else:
+                    o = cl.clean()
+            obs['cls'] = o.cls
+            obs['detail'] = o.detail[:200]
+            obs['backend'] = sorted(('snapshot:%s' % labels.get(x.rpartition('-')[2], '?')) if x.startswith('snapshots/') else x for x in b.objects)
+            steps.append(obs)
+        out[variant] = steps
+    sys.stdout.write(json.dumps(out))
+    sys.stdout.flush()
+    os._exit(0)
+
+
+def run_crowds(ctx, rep, specs):
+    """specs: [(kind, seed)]"""
+    def one(spec):
+        kind, seed = spec
+        wd = ctx.scratch / f'crowd-{kind}-{seed}'
+        wd.mkdir(parents=True, exist_ok=True)
+        rc, out, err = core.run_impl(['-m', 'harness.c18', 'crowd'], {'seed': seed, 'kind': kind, 'workdir': str(wd), 'cap': 400, 'least': 12}, timeout=900)
+        shutil.rmtree(wd, ignore_errors=True)
+        if rc != 0 or not out.strip():
+            return {'error': f'worker rc={rc}: {err[-600:]}'}
+        return json.loads(out)
+    with ThreadPoolExecutor(max_workers=4) as ex:
+        results = list(ex.map(one, specs))
+    for (kind, seed), r in zip(specs, results):
+        replay = {'crowd': {'kind': kind, 'seed': seed}}
+        if 'error' in r:
+            rep.disagreements.append({'what': 'the crowded-directory scenario could not be run on the implementation: ' + r['error'], 'replay': replay})
+            continue
+        rep.case(('crowd', kind, seed), nontrivial=bool(r['crowded']))
+        rep.count('variant:cold-crowded')
+        rep.count('crowd:snapshots', r['n'])
+        for i, (a, b) in enumerate(zip(r['none'], r['cold'])):
+            key = diff_obs(a, b)
+            if key:
+                rep.violations.append({
+                    'what': f'{kind} repository with {r["n"]} snapshots, {len(r["crowded"])} cache sub-directories holding two or more ({r["crowded"][:2]}): '
+                            f'with a cold cache and 4 loader threads {a["op"]} (command {i}) differs from the cache-less run in {key}: '
+                            f'{json.dumps(b.get(key))[:120]} ({b.get("detail", "")[:120]}) vs {json.dumps(a.get(key))[:120]}',
+                    'signature': {'variant': 'cold-crowded', 'op': a['op'], 'differs': key}, 'replay': replay})
+                break
+
+
 # --------------------------------------------------------------------------- model side
 KR = {0: '(Some {| k_shared := Bytes 1; k_salt := Bytes 2; k_mac := Bytes 3; k_user := Kdf (Bytes 4) (Bytes 5) |})',
       1: '(Some {| k_shared := Bytes 1; k_salt := Bytes 2; k_mac := Bytes 3; k_user := Kdf (Bytes 14) (Bytes 15) |})',
@@ -310,8 +545,14 @@ def model_text(history, run, variant):
              'Import ListNotations.', 'Local Open Scope N_scope.', 'Set Printing Depth 1000000.']
     for u, t in KR.items():
         lines.append(f'Definition KR{u} : mode := {t}.')
-    created = [(i, op) for i, op in enumerate(history) if op['op'] == 'snapshot' and op['client'] != 3]
+    created = [(i, op) for i, op in enumerate(history) if op['client'] != 3 and
+               (op['op'] == 'snapshot' or (op['op'] == 'plant' and run['steps'][i]['extra'].get('planted_from') is not None))]
     for i, op in created:
+        if op['op'] == 'plant':
+            # another snapshot's bytes under a well-formed name they do not hash to (tag valid for the planting client's family)
+            lines.append(f'Definition SN{i} : term := SN{run["steps"][i]["extra"]["planted_from"]}.')
+            lines.append(f'Definition P{i} : loc := snapshot_loc KR{op["client"]} (Garbage {5000 + i}).')
+            continue
         lines.append(f'Definition SN{i} : term := encrypt_body KR{op["client"]} {2 * i} {2 * i + 1} (tlist []) (enc_data (Bytes {1000 + i}) []).')
         lines.append(f'Definition P{i} : loc := snapshot_loc KR{op["client"]} (Hash SN{i}).')
     label_by_path = {v[1]: int(l) for l, v in run['paths'].items() if v[0] == 0}
@@ -344,6 +585,10 @@ def model_text(history, run, variant):
         k = op['op']
         if k == 'snapshot':
             o = f'OPut P{i} SN{i}' if st['obs']['cls'] == 'Ok' else 'OLoad (Some [])'
+        elif k == 'plant':
+            o = f'OPut P{i} SN{i}' if st['extra'].get('planted_from') is not None else 'OLoad (Some [])'
+        elif k == 'unplant':
+            o = f'ORemove P{op["label"]}' if any(j == op['label'] for j, _ in created) else 'OLoad (Some [])'
         elif k in ('list_snapshots', 'list_files', 'clean'):
             o = 'OLoad None'
         elif k == 'restore':
@@ -376,7 +621,9 @@ def compare_with_model(rep, hid, history, run, variant, vals):
         obs, op = st['obs'], history[i]
         rep.traces_validated += 1
         what = None
-        if CODE.get(obs['cls'], 4) != code:
+        if obs.get('either_error') and obs['cls'] != 'Ok' and code != 0:
+            pass
+        elif CODE.get(obs['cls'], 4) != code:
             what = f'outcome class: model {code}, implementation {obs["cls"]} ({obs["detail"]})'
         elif op['op'] == 'list_snapshots' and obs['cls'] == 'Ok':
             impl_rows = sorted((r[0], r[2] != '--') for r in obs['rows'][1:]) if obs['rows'] else []
@@ -420,6 +667,8 @@ def _label_of_term(t):
 
 # --------------------------------------------------------------------------- comparison with the cache-less run
 def diff_obs(a, b):
+    if (a.get('either_error') or b.get('either_error')) and a.get('cls') != 'Ok' and b.get('cls') != 'Ok':
+        a, b = dict(a, cls='error'), dict(b, cls='error')
     for key in ('cls', 'rows', 'tree', 'backend'):
         if a.get(key) != b.get(key):
             return key
@@ -497,8 +746,9 @@ def run(ctx) -> Report:
     histories = []
     for hid in range(n):
         seed = ctx.rng.randrange(1 << 30)
-        histories.append((hid, seed, gen_history(ctx.rng, ctx.rng.randint(8, 14))))
+        histories.append((hid, seed, gen_history(ctx.rng, ctx.rng.randint(8, 14), plant=hid % 2 == 0)))
     run_histories(ctx, rep, histories, VARIANTS_QUICK)
+    run_crowds(ctx, rep, [(kind, ctx.rng.randrange(1 << 30)) for kind in ('plain', 'encrypted') for _ in range(ctx.scale(1, 4))])
     return rep
 
 
@@ -510,13 +760,20 @@ def search(ctx, broken) -> Report:
         if isinstance(c, dict) and 'history' in c:
             histories.append((1000 + len(histories), ctx.rng.randrange(1 << 30), c['history']))
     for hid in range(40):
-        histories.append((hid, ctx.rng.randrange(1 << 30), gen_history(ctx.rng, ctx.rng.randint(8, 16))))
+        histories.append((hid, ctx.rng.randrange(1 << 30), gen_history(ctx.rng, ctx.rng.randint(8, 16), plant=hid % 2 == 0)))
     run_histories(ctx, rep, histories, VARIANTS_QUICK, with_model=False)
+    run_crowds(ctx, rep, [(kind, ctx.rng.randrange(1 << 30)) for kind in ('plain', 'encrypted') for _ in range(4)])
     return rep
 
 
 def replay(ctx, obj):
     r = obj.get('replay') or {}
+    if 'crowd' in r:
+        rep = Report(rule=RULE)
+        run_crowds(ctx, rep, [(r['crowd']['kind'], r['crowd']['seed'])])
+        for v in rep.violations:
+            print('VIOLATION-REPRODUCED', v['what'])
+        return 1 if rep.violations or rep.disagreements else 0
     if 'history' not in r:
         print('replay file does not carry a history:', obj.get('kind'))
         for b in obj.get('broken', []):
@@ -536,3 +793,5 @@ def replay(ctx, obj):
 if __name__ == '__main__':
     if sys.argv[1:] == ['worker']:
         worker_main()
+    elif sys.argv[1:] == ['crowd']:
+        crowd_main(json.load(sys.stdin))
